@@ -69,11 +69,12 @@ func Setup(c Case) (*World, error) {
 				return w, fmt.Errorf("place %v names unknown host", p)
 			}
 			g.PutRegistry(h, p.Repo, !h.Feat.Referrers, nil)
+			canonRegistry(h.Repo(p.Repo))
 		case "layout":
 			if p.Dir == "" || strings.ContainsAny(p.Dir, "/\\") {
 				return w, fmt.Errorf("bad layout dir %q", p.Dir)
 			}
-			if err := g.PutLayout(filepath.Join(w.LayRoot, p.Dir), imggenStyle, nil); err != nil {
+			if err := g.PutLayout(filepath.Join(w.LayRoot, p.Dir), canonLayout(), nil); err != nil {
 				return w, err
 			}
 		default:
@@ -308,6 +309,19 @@ var (
 	tarErr   error
 )
 
+// ImportManifestDigest is the digest of the image manifest inside the import tar.
+var ImportManifestDigest = func() string { _, _, man := importImage(); return rm.Digest("sha256", man) }()
+
+func importImage() (layer, cfg, man []byte) {
+	layer = []byte("c19 import layer bytes (opaque to export/import)")
+	ld := rm.Digest("sha256", layer)
+	cfg = []byte(`{"architecture":"amd64","os":"linux","config":{"Env":["C19=import"]},"rootfs":{"type":"layers","diff_ids":["` + ld + `"]}}`)
+	cd := rm.Digest("sha256", cfg)
+	man = []byte(fmt.Sprintf(`{"schemaVersion":2,"mediaType":%q,"config":{"mediaType":%q,"digest":%q,"size":%d},"layers":[{"mediaType":%q,"digest":%q,"size":%d}]}`,
+		rm.MTOCIManifest, rm.MTOCIConfig, cd, len(cfg), rm.MTOCILayerGzip, ld, len(layer)))
+	return
+}
+
 // ImportTar returns (building it once per process with ImageExport from a
 // private model registry) the archive that image.importTar statements read.
 func ImportTar() ([]byte, error) {
@@ -315,12 +329,8 @@ func ImportTar() ([]byte, error) {
 		m := rm.New()
 		h := m.AddHost("setup.example.test")
 		r := h.Repo("img")
-		layer := []byte("c19 import layer bytes (opaque to export/import)")
-		ld := rm.Digest("sha256", layer)
-		cfg := []byte(`{"architecture":"amd64","os":"linux","config":{"Env":["C19=import"]},"rootfs":{"type":"layers","diff_ids":["` + ld + `"]}}`)
-		cd := rm.Digest("sha256", cfg)
-		man := []byte(fmt.Sprintf(`{"schemaVersion":2,"mediaType":%q,"config":{"mediaType":%q,"digest":%q,"size":%d},"layers":[{"mediaType":%q,"digest":%q,"size":%d}]}`,
-			rm.MTOCIManifest, rm.MTOCIConfig, cd, len(cfg), rm.MTOCILayerGzip, ld, len(layer)))
+		layer, cfg, man := importImage()
+		ld, cd := rm.Digest("sha256", layer), rm.Digest("sha256", cfg)
 		md := rm.Digest("sha256", man)
 		r.Blobs[ld], r.Blobs[cd] = layer, cfg
 		r.Manifests[md] = &rm.Manifest{MediaType: rm.MTOCIManifest, Body: man}
